@@ -19,6 +19,7 @@ package gogen
 
 import (
 	"go/ast"
+	"go/constant"
 	"go/token"
 	"go/types"
 	"log"
@@ -521,9 +522,59 @@ func (p *CodeBuilder) Index(nidx int, lhs int, src ...ast.Node) *CodeBuilder {
 	elem := &internal.Elem{
 		Val: &ast.IndexExpr{X: argVal, Index: args[1].Val}, Type: tyRet, Src: srcExpr,
 	}
-	// TODO(xsw): check index type
+	if ivKind != ivMapStringAny {
+		p.checkIndex(args[0], args[1], typs[0], ivKind == ivTwoValue)
+	}
 	p.stk.Ret(2, elem)
 	return p
+}
+
+// checkIndex checks the index operand of x[idx]: the key of a map index must be assignable to
+// the key type; any other index must be of integer type or an untyped constant representable
+// as a non-negative int, and a constant index of an array must be in range.
+func (p *CodeBuilder) checkIndex(x, idx *internal.Elem, keyType types.Type, isMap bool) {
+	if idx.Type == nil {
+		return
+	}
+	pkg := p.pkg
+	if isMap {
+		if !AssignableConv(pkg, idx.Type, keyType, idx) {
+			src, pos, end := p.loadExpr(idx.Src)
+			p.panicCodeErrorf(pos, end, "cannot use %s (type %v) as type %v in map index", src, idx.Type, keyType)
+		}
+		return
+	}
+	integral := false
+	if t, ok := idx.Type.Underlying().(*types.Basic); ok {
+		if t.Info()&types.IsInteger != 0 {
+			integral = true
+		} else if t.Info()&types.IsUntyped != 0 && t.Info()&types.IsNumeric != 0 && idx.CVal != nil {
+			integral = constant.ToInt(idx.CVal).Kind() == constant.Int
+		}
+	}
+	if !integral {
+		src, pos, end := p.loadExpr(idx.Src)
+		p.panicCodeErrorf(pos, end, "invalid argument: index %s (type %v) must be integer", src, idx.Type)
+	}
+	if idx.CVal == nil {
+		return
+	}
+	v, exact := constant.Int64Val(constant.ToInt(idx.CVal))
+	if !exact || v < 0 {
+		src, pos, end := p.loadExpr(idx.Src)
+		p.panicCodeErrorf(pos, end, "invalid argument: index %s (constant %v) must be a non-negative int", src, idx.CVal)
+	}
+	typ := x.Type
+	if t, ok := typ.(*types.Pointer); ok {
+		typ = t.Elem()
+	}
+	if named, ok := typ.(*types.Named); ok {
+		typ = p.getUnderlying(named)
+	}
+	if arr, ok := types.Unalias(typ).(*types.Array); ok && arr.Len() >= 0 && v >= arr.Len() {
+		src, pos, end := p.loadExpr(idx.Src)
+		p.panicCodeErrorf(pos, end, "invalid argument: index %s out of bounds [0:%d]", src, arr.Len())
+	}
 }
 
 // Star func
